@@ -116,6 +116,14 @@ func (c *Catalog) tagsFromTagsDirective(d *directive.Directive) ([]*Tag, *jerr.J
 	return tt, nil
 }
 
+// CheckTagsDirective validates a Tags directive by itself: a Tags directive of
+// an URL is not used, and so never looked at, when every method of the URL has
+// its own Tags directive.
+func (c *Catalog) CheckTagsDirective(d *directive.Directive) *jerr.JApiError {
+	_, je := c.tagsFromTagsDirective(d)
+	return je
+}
+
 func checkTagsDirective(d *directive.Directive) *jerr.JApiError {
 	if d.Annotation != "" {
 		return d.KeywordError(jerr.AnnotationIsForbiddenForTheDirective)
